@@ -13,9 +13,9 @@ for m in sorted(glob.glob('/verif/seeded/%s-*/meta.json' % pid)):
     note = (json.load(open(m)).get('needs_to_manifest') or '').strip().replace("\n", " ")
     prior.append("  - " + note[:420])
 PRIOR = ""
-if prior and (os.environ.get("WAVE3") or os.environ.get("WAVE4") or os.environ.get("WAVE5")):
+if prior and (os.environ.get("WAVE3") or os.environ.get("WAVE4") or os.environ.get("WAVE5") or os.environ.get("WAVE6")):
     PRIOR = "\n\nOther people have ALREADY proposed the following changes for this property; yours must be genuinely different (different mechanism, different code site or different trigger), not variations of these:\n" + "\n".join(prior) + "\n"
-NUM = "THREE" if (os.environ.get("WAVE3") or os.environ.get("WAVE4") or os.environ.get("WAVE5")) else "TWO"
+NUM = "THREE" if (os.environ.get("WAVE3") or os.environ.get("WAVE4") or os.environ.get("WAVE5") or os.environ.get("WAVE6")) else "TWO"
 if os.environ.get("WAVE5"):
     PRIOR += """
 Many obvious ideas are taken (see the list above), so dig deeper. Favour changes of these kinds (at least two of your three):
@@ -24,6 +24,17 @@ Many obvious ideas are taken (see the list above), so dig deeper. Favour changes
   (h) TWO METHODS ON ONE OBJECT: calling one public method changes what a later call of another public method on the same object (or on another object of the same class, or in the same process) returns;
   (i) DEFAULTS: a default value that is evaluated once, shared, or differs subtly from what the documentation says, so that only callers relying on the default (or only callers NOT relying on it) are affected;
   (j) OFF-BY-ONE AT A DOCUMENTED BOUNDARY that toy examples do not touch (first/last line of a file, first/last feature of a chromosome, exactly N items where N is a constant in the code, zero-length or one-base features, coordinate 1 or the largest supported coordinate).
+"""
+
+if os.environ.get("WAVE6"):
+    PRIOR += """
+Many ideas are taken (see the list above), so dig deeper and look at code sites nobody has touched yet. Favour changes of these kinds (at least two of your three):
+  (k) PERSISTENCE: the difference only shows after the database is closed and reopened, or only for an in-memory database versus a file database, or only for a database that was created earlier and is then updated or queried by a new object (what is stored versus what is kept on the object);
+  (l) SQL CONSTRUCTION: a change in how a query is put together (JOIN, ORDER BY, DISTINCT, LIMIT, GROUP BY, parameter binding, LIKE/GLOB versus =, IN lists, NULL handling, collation, an index or a pragma) that gives the same answer for tidy data but a different one for data with duplicates, NULL/'.' values, upper/lower case variants, ids that are prefixes of each other or contain SQL wildcards (%, _), or very many parameters;
+  (m) TEXT EDGE CASES: empty strings, surrounding blanks, upper/lower case, numeric-looking strings ('007', '1e3', '-0'), non-ASCII letters, very long values, keys or ids containing separators or quotes, a value equal to a keyword the code treats specially ('.', 'None', 'nan', 'autoincrement', 'Parent');
+  (n) ITERATOR PROTOCOL: a result that is consumed only partly, consumed twice, consumed while another result of the same object is still open, or consumed after the object was changed; generators versus lists; early `break`; `next()` without a loop;
+  (o) A SECOND CODE PATH FOR THE SAME THING: the library often has two implementations of one behaviour (GFF3 importer vs GTF importer, create_db vs update, file iterator vs feature iterator vs string input, `region()` vs `limit=`, `children()` vs `parents()`, `__str__` vs `__repr__`/`astuple`, printing with vs without a dialect): change only the less travelled one;
+  (p) NUMERIC EDGES: coordinates 0, 1, equal start and end, start greater than end, negative, exactly a power of two, beyond 2**31 or 2**53, given as strings or floats; counts of exactly 0, 1 or the size of an internal batch.
 """
 
 if os.environ.get("WAVE4"):
